@@ -299,3 +299,38 @@ class MiniscriptSpendBounded:
             return True
         # the static bound counts a 73-byte ECDSA signature where the reference signer's low-s DER is 71..72
         return result["size"] <= result["max_size"]
+
+
+# ---------------------------------------------------------------- lock-time rules, deductive
+from pyvc.api import shape  # noqa: E402
+
+
+@shape("btclib.descriptors.miniscript.SpendContext", fields=dict(locktime="u32", sequence="u32", version="int[1..3]"))
+class SpendContextShape:
+    def inv(self):
+        return True
+
+    def build(locktime, sequence, version):
+        return M.SpendContext(locktime=locktime, sequence=sequence, version=version)
+
+
+@contract("btclib.descriptors.miniscript.SpendContext._after", types=dict(self="obj:SpendContext", value="u32"), props="C15")
+class AfterRule:
+    """BIP65 as the interpreter enforces it: same kind of lock time on both sides of 500000000,
+    the transaction's at least the fragment's, and a sequence that does not disable nLockTime"""
+
+    def post_bip65(self, value, result):
+        same_kind = (value >= 500000000) == (self.locktime >= 500000000)
+        return result == (same_kind and value <= self.locktime and self.sequence != 0xFFFFFFFF)
+
+
+@contract("btclib.descriptors.miniscript.SpendContext._older", types=dict(self="obj:SpendContext", value="u32"), props="C15")
+class OlderRule:
+    """BIP112 as the interpreter enforces it: version >= 2, disable bit (31) clear, same unit
+    (bit 22), and the low 16 bits of the sequence at least those of the fragment"""
+
+    def post_bip112(self, value, result):
+        s = self.sequence
+        enabled = self.version >= 2 and s < 2**31
+        same_unit = ((value // 2**22) % 2) == ((s // 2**22) % 2)
+        return result == (enabled and same_unit and value % 65536 <= s % 65536)
